@@ -203,30 +203,24 @@ Proof.
   - right. apply IH. lia.
 Qed.
 
-Theorem map_takes_copies w m k v w' r ko vo :
-  get w k = Ok ko -> get w v = Ok vo -> step w (MSet m k v) = Ok (w', r) ->
-  lookup k (held w') = Some ko /\ lookup v (held w') = Some vo /\
+Lemma map_set_spec w m ko vo w' r :
+  map_set pcre w m ko vo = Ok (w', r) ->
   exists i c a al xs' pk v2,
     lookup m (held w') = Some (OCont i c a al xs') /\ In (Some (OPair pk (Some v2))) xs' /\ abs v2 = abs vo /\
     (r = RBool false -> exists k2, pk = Some k2 /\ abs k2 = abs ko).
 Proof.
-  intros Gk Gv E. pose proof E as E0. cbn [World.step] in E.
+  unfold map_set. intros E.
   destruct (get w m) as [mo|] eqn:Gm; cbn [bind] in E; [|discriminate].
-  rewrite Gk, Gv in E. cbn [bind] in E.
   destruct (as_cont mo) as [[[[[i c] a] al] xs]|] eqn:Ac; cbn [bind] in E; [|discriminate].
   destruct (want_iface i IMap); cbn [bind] in E; [|discriminate].
-  destruct (Nat.eqb m k) eqn:Emk; [discriminate|]. destruct (Nat.eqb m v) eqn:Emv; [discriminate|].
-  apply Nat.eqb_neq in Emk, Emv. cbn [orb] in E.
   match type of E with (if ?b then _ else _) = _ => destruct b end; [discriminate|].
-  apply get_ok in Gk, Gv, Gm. apply as_cont_ok in Ac. subst mo.
-  split. { eapply (step_keeps pcre flag_table k w (MSet m k v)); [exact E0| |reflexivity|exact Gk]. cbn. intros [A|[]]. congruence. }
-  split. { eapply (step_keeps pcre flag_table v w (MSet m k v)); [exact E0| |reflexivity|exact Gv]. cbn. intros [A|[]]. congruence. }
-  match type of E with (x <- ?S ;; _) = _ => destruct S as [hit|] eqn:Hit end; cbn [bind] in E; [|discriminate].
+  apply get_ok in Gm. apply as_cont_ok in Ac. subst mo.
+  destruct (map_scan ko xs O) as [hit|] eqn:Hit; cbn [bind] in E; [|discriminate].
   destruct (copy pcre vo) as [v'|] eqn:Cv; cbn [bind] in E; [|discriminate].
   destruct hit as [n|].
-  - apply scan_hit_lt in Hit. destruct (nth n xs None) as [[]|] eqn:Nn; try discriminate.
+  - apply scan_hit_lt in Hit. destruct (nth n xs None) as [[| | | |pk0 pv0| | | | | |]|] eqn:Nn; try discriminate.
     pose proof (relabel_abs v' (naddr w)) as Ra. destruct (relabel v' (naddr w)) as [v2 na]. cbn [fst] in Ra. inv E.
-    exists i, c, a, al, (Buf.upd xs n (Some (OPair k0 (Some v2)))), k0, v2. cbn [held].
+    exists i, c, a, al, (Buf.upd xs n (Some (OPair pk0 (Some v2)))), pk0, v2. cbn [held].
     split; [eapply lookup_put_same; eauto|]. split; [apply upd_in; lia|]. split; [|discriminate].
     now rewrite Ra, (copy_abs pcre vo v' Cv).
   - destruct (copy pcre ko) as [k'|] eqn:Ck; cbn [bind] in E; [|discriminate].
@@ -239,6 +233,66 @@ Proof.
     split; [eapply lookup_put_same; eauto|]. split; [eapply c_insert_in; eauto|].
     split; [now rewrite Rv, (copy_abs pcre vo v' Cv)|]. intros _. exists k2. split; [reflexivity|].
     now rewrite Rk, (copy_abs pcre ko k' Ck).
+Qed.
+
+(* map set, key and value given separately: the caller still holds both, unchanged, and the map's
+   tree has an entry whose value (and, for a new key, whose key) is a copy with the same value *)
+Theorem map_takes_copies w m k v w' r ko vo :
+  get w k = Ok ko -> get w v = Ok vo -> step w (MSet m k v) = Ok (w', r) ->
+  lookup k (held w') = Some ko /\ lookup v (held w') = Some vo /\
+  exists i c a al xs' pk v2,
+    lookup m (held w') = Some (OCont i c a al xs') /\ In (Some (OPair pk (Some v2))) xs' /\ abs v2 = abs vo /\
+    (r = RBool false -> exists k2, pk = Some k2 /\ abs k2 = abs ko).
+Proof.
+  intros Gk Gv E. pose proof E as E0. cbn [World.step] in E.
+  destruct (get w m) as [mo|] eqn:Gm; cbn [bind] in E; [|discriminate].
+  rewrite Gk, Gv in E. cbn [bind] in E.
+  destruct (Nat.eqb m k) eqn:Emk; [discriminate|]. destruct (Nat.eqb m v) eqn:Emv; [discriminate|].
+  apply Nat.eqb_neq in Emk, Emv. cbn [orb] in E.
+  apply get_ok in Gk, Gv.
+  split. { eapply (step_keeps pcre flag_table k w (MSet m k v)); [exact E0| |reflexivity|exact Gk]. cbn. intros [A|[]]. congruence. }
+  split. { eapply (step_keeps pcre flag_table v w (MSet m k v)); [exact E0| |reflexivity|exact Gv]. cbn. intros [A|[]]. congruence. }
+  eapply map_set_spec; exact E.
+Qed.
+
+(* map set in pair form, SPIF_MAP_SET(map, pair, NULL): the pair stays the caller's, unchanged (so
+   deleting it later releases exactly its own footprint), and the map's entry is made of copies *)
+Theorem map_pair_form_takes_copies w m p w' r po :
+  get w p = Ok po -> step w (MSetPair m p) = Ok (w', r) ->
+  lookup p (held w') = Some po /\
+  exists ko vo, po = OPair (Some ko) (Some vo) /\
+  exists i c a al xs' pk v2,
+    lookup m (held w') = Some (OCont i c a al xs') /\ In (Some (OPair pk (Some v2))) xs' /\ abs v2 = abs vo /\
+    (r = RBool false -> exists k2, pk = Some k2 /\ abs k2 = abs ko).
+Proof.
+  intros Gp E. pose proof E as E0. cbn [World.step] in E.
+  destruct (get w m) as [mo|] eqn:Gm; cbn [bind] in E; [|discriminate].
+  rewrite Gp in E. cbn [bind] in E.
+  destruct (Nat.eqb m p) eqn:Emp; [discriminate|]. apply Nat.eqb_neq in Emp. apply get_ok in Gp.
+  split. { eapply (step_keeps pcre flag_table p w (MSetPair m p)); [exact E0| |reflexivity|exact Gp]. cbn. intros [A|[]]. congruence. }
+  destruct po as [| | | |[ko|] [vo|]| | | | | |]; try discriminate.
+  exists ko, vo. split; [reflexivity|]. eapply map_set_spec; exact E.
+Qed.
+
+(* the map's own stored value (or its own stored entry, pair form) passed back to set: the entry
+   keeps a value with the same observable value and the ledger does not move *)
+Theorem map_set_own_neutral w m k pf w' r b :
+  Inv b w -> step w (MSetOwn m k pf) = Ok (w', r) -> Inv b w' /\ forall h, h <> m -> keeps h w w'.
+Proof.
+  intros I E. split; [eapply step_inv; eauto|].
+  intros h N. eapply step_keeps; [exact E| |reflexivity]. cbn. intros [A|[]]. congruence.
+Qed.
+
+(* the queries (count, get, contains, find, index, map get, has_key, has_value) change nothing:
+   same handles, same values, same ledger *)
+Theorem query_changes_nothing w c h w' r : step w (Query c h) = Ok (w', r) -> w' = w /\ r = RUnit.
+Proof.
+  intros E. cbn [World.step] in E.
+  destruct (get w c) as [co|]; cbn [bind] in E; [|discriminate].
+  destruct (get w h) as [po|]; cbn [bind] in E; [|discriminate].
+  destruct (as_cont co) as [[[[[i k] a] al] xs]|]; cbn [bind] in E; [|discriminate].
+  match type of E with (if ?c then _ else _) = _ => destruct c end; [discriminate|].
+  destruct (query_walk i po xs); inv E. split; reflexivity.
 Qed.
 
 (* ---- type ---- *)
